@@ -438,7 +438,7 @@ theorem append_right_inj' {suf a b : String} (h : a ++ suf = b ++ suf) : a = b :
 
 theorem concat_spec {axis1 inner : Bool} {frames : List (List Name)} {p : Parent} {deps : List Dep} {rw : Rw}
     (h : concat axis1 inner frames p deps = some rw) :
-    rw.childs = frames.map (concatChild (detProj p deps []).toList) ∧
+    rw.childs = frames.map (concatChild axis1 (detProj p deps []).toList) ∧
     rw.dropped = frames.map (concatDropped axis1 (detProj p deps []).toList) := by
   unfold concat at h
   simp only at h
@@ -446,12 +446,56 @@ theorem concat_spec {axis1 inner : Bool} {frames : List (List Name)} {p : Parent
   · cases h
   · cases h; exact ⟨rfl, rfl⟩
 
-theorem concatChild_cases (columns f : List Name) :
-    concatChild columns f = none ∨ concatChild columns f = some (.many (f.filter (columns.contains ·))) := by
+theorem concatChild_cases (axis1 : Bool) (columns f : List Name) :
+    concatChild axis1 columns f = none ∨
+      concatChild axis1 columns f = some (.many (concatKeepCols axis1 columns f)) := by
   unfold concatChild
   simp only
   split
   · exact Or.inl rfl
   · exact Or.inr rfl
+
+/-- what an input keeps is either its requested columns or, when it has none of them and rows are stacked, its
+    first column -/
+theorem concatKeepCols_cases (axis1 : Bool) (columns f : List Name) :
+    concatKeepCols axis1 columns f = f.filter (columns.contains ·) ∨
+      (axis1 = false ∧ f.filter (columns.contains ·) = [] ∧ concatKeepCols axis1 columns f = f.take 1) := by
+  unfold concatKeepCols
+  simp only
+  split
+  · rename_i h
+    simp only [Bool.and_eq_true, Bool.not_eq_true', List.isEmpty_iff] at h
+    exact Or.inr ⟨h.1, h.2, rfl⟩
+  · exact Or.inl rfl
+
+/-- a sub-schema that contains the requested columns of the input -/
+theorem concatKeepCols_adequate (axis1 : Bool) (f : List Name) (p : Parent) (deps : List Dep) :
+    Adequate f [] p.cols (concatKeepCols axis1 (detProj p deps []).toList f) := by
+  rcases concatKeepCols_cases axis1 (detProj p deps []).toList f with h | ⟨_, hnil, h⟩
+  · rw [h]; exact adequate_union_contains f p deps []
+  · rw [h]
+    have had := adequate_union_contains f p deps []
+    rw [hnil] at had
+    exact {
+      sub := fun c hc => List.mem_of_mem_take hc
+      nodup := fun hn => List.Nodup.sublist (List.take_sublist 1 f) hn
+      keys := fun k hk _ => by cases hk
+      req := fun c hc hf => by cases had.req c hc hf }
+
+/-- D85: stacking rows, an input that has columns keeps at least one of them -/
+theorem concatKeepCols_ne_nil (columns f : List Name) (hf : f ≠ []) : concatKeepCols false columns f ≠ [] := by
+  rcases concatKeepCols_cases false columns f with h | ⟨_, _, h⟩
+  · unfold concatKeepCols at h ⊢
+    simp only [Bool.not_false, Bool.true_and] at h ⊢
+    split
+    · cases f with
+      | nil => exact absurd rfl hf
+      | cons a t => simp
+    · rename_i hne
+      simpa [List.isEmpty_iff] using hne
+  · rw [h]
+    cases f with
+    | nil => exact absurd rfl hf
+    | cons a t => simp
 
 end Dx.Cols
